@@ -14,7 +14,7 @@ use crate::core::*;
 use crate::gen::*;
 use crate::sut::{self, FileRunOpts, Outcome};
 
-const RDEF: &str = "CREATE TABLE n(line = '^([a-z]+) ([0-9]+)?$', line[1] => k TEXT, line[2] => v INT NOT NULL);\nCREATE TABLE d(line = '^([a-z]+) ([0-9]+)?$', line[1] => k TEXT, line[2] => v INT DEFAULT 7);\nCREATE TABLE o(line = '^([a-z]+) ([0-9]+)?$', line[2] => v INT);";
+const RDEF: &str = "CREATE TABLE n(line = '^([a-z]+) ([0-9]+)?$', line[1] => k TEXT, line[2] => v INT NOT NULL);\nCREATE TABLE d(line = '^([a-z]+) ([0-9]+)?$', line[1] => k TEXT, line[2] => v INT DEFAULT 7);\nCREATE TABLE o(line = '^([a-z]+) ([0-9]+)?$', line[2] => v INT);\nCREATE TABLE nd(line = '^([a-z]+) ([0-9]+)?$', line[1] => k TEXT NOT NULL, line[2] => v INT DEFAULT 7);\nCREATE TABLE dn('^([a-z]+) ' => k TEXT DEFAULT 'none', '([0-9]+)$' => v INT NOT NULL);";
 
 fn rlines() -> Vec<&'static str> {
     vec!["a 1", "b 2", "a 3"]
@@ -238,7 +238,8 @@ fn admission(w: &World) -> (Vec<Failure>, u64) {
         let k = caps.as_ref().and_then(|c| c.get(1)).is_some();
         let v = caps.as_ref().and_then(|c| c.get(2)).and_then(|m| m.as_str().parse::<i64>().ok()).is_some();
         // table n: v NOT NULL -> row iff v ; table d: DEFAULT 7 counts as a value -> always a row; table o: only v -> row iff v
-        for (table, expect) in [("n", v && (k || v)), ("d", true), ("o", v)] {
+        let v_tail = regex::Regex::new("([0-9]+)$").unwrap().captures(t).and_then(|c| c.get(1)).and_then(|m| m.as_str().parse::<i64>().ok()).is_some();
+        for (table, expect) in [("n", v && (k || v)), ("d", true), ("o", v), ("nd", k), ("dn", v_tail)] {
             let st = sut::parse(&format!("SELECT COUNT(*) FROM {}", table)).unwrap();
             let r = sut::run_batch(&w.tables, &st, &[t]);
             n += 1;
